@@ -748,7 +748,7 @@ func c20Describe(in c20Input) c20Replay {
 }
 
 func TestC20(t *testing.T) {
-	col := stats.New("C20", "the loaders - BuildRuleFromResource (GRL bytes), JSONResource.Load + build (JSON rule bytes), DataContext.AddJSON (JSON fact bytes), LoadKnowledgeBaseFromReader (binary stream; half of the valid streams are then handed on to the GRL loader and to NewKnowledgeBaseInstance, which must not panic either) - are fed generated inputs: random bytes; valid inputs produced by the other checks' generators (grammar-rich GRL documents, JSON rules converted from typed trees, JSON fact documents, stored binary images of built knowledge bases); 1-3 structure-aware mutations of those (bit flips, boundary bytes, deletion, duplication, repetition, insertion, truncation, splicing, 8-byte boundary numbers, length-field edits at the binary format's field boundaries taken from the loader's own Read calls, edits of nested length fields (a length stored inside a length-prefixed blob), node-identifier swaps (a well-formed stream whose node references form cycles, dangle or name a node of another kind), token-level GRL mutations); and structural inputs (nesting, long flat chains, many rules, deep JSON). Every input is executed in a child process built from the current tree with an address-space limit of 3 GiB; the parent knows the culprit when the child dies or exceeds the hang guard. Oracle per input: no panic escapes the loader, the process survives, TotalAlloc grows by at most 64 MiB + 256 KiB per input byte - 64 MiB + 8 KiB per input byte for inputs without a chain of 8 or more - (deterministic), wall time <= 20 s (three orders of magnitude above normal; hang guard only). Structural inputs include string literals of 36 lexical forms (doubled quotes, unknown or truncated escapes, trailing backslash, adjacent or unterminated literals) at every place a literal may stand, in GRL and inside JSON rules. Non-trivial: the loader got past its first validation step (returned success, or an error after structural parsing: GRL/JSON inputs that lex, binary streams with a valid version header). Distinct by input bytes.",
+	col := stats.New("C20", "the loaders - BuildRuleFromResource (GRL bytes), JSONResource.Load + build (JSON rule bytes), DataContext.AddJSON (JSON fact bytes), LoadKnowledgeBaseFromReader (binary stream; half of the valid streams are then handed on to the GRL loader and to NewKnowledgeBaseInstance, which must not panic either) - are fed generated inputs: random bytes; valid inputs produced by the other checks' generators (grammar-rich GRL documents, JSON rules converted from typed trees, JSON fact documents, stored binary images of built knowledge bases); 1-3 structure-aware mutations of those (bit flips, boundary bytes, deletion, duplication, repetition, insertion, truncation, splicing, 8-byte boundary numbers, length-field edits at the binary format's field boundaries taken from the loader's own Read calls, edits of nested length fields (a length stored inside a length-prefixed blob), node-identifier swaps (a well-formed stream whose node references form cycles, dangle or name a node of another kind), token-level GRL mutations); and structural inputs (nesting, long flat chains, many rules, deep JSON). Every input is executed in a child process built from the current tree with an address-space limit of 3 GiB; the parent knows the culprit when the child dies or exceeds the hang guard. Oracle per input: no panic escapes the loader, the process survives, TotalAlloc grows by at most 64 MiB + 256 KiB per input byte - 64 MiB + 8 KiB per input byte for inputs without a chain of 8 or more - (deterministic), wall time <= 20 s (three orders of magnitude above normal; hang guard only). Structural inputs include string literals of 36 lexical forms (doubled quotes, unknown or truncated escapes, trailing backslash, adjacent or unterminated literals) at every place a literal may stand, in GRL and inside JSON rules. An enumerated corpus of structural inputs (a complete rule with each of its ten parts left out under eight separators, each string literal form at five places of a GRL rule and inside a JSON rule, very many errors on one long line) is run in every run, divided among the shards. Non-trivial: the loader got past its first validation step (returned success, or an error after structural parsing: GRL/JSON inputs that lex, binary streams with a valid version header). Distinct by input bytes.",
 		"inputs whose longest operator/selector/parenthesis chain in one statement is >= 64 belong to the open finding about cubic build cost; generated chains stay <= 32 and are counted when a mutation exceeds the signature",
 		"time is not used as a correctness signal below the 20 s hang guard")
 	defer col.Flush()
